@@ -98,7 +98,7 @@ PROPS = {
              "R-TYPE-TABLE (wasm_encoder writer), aux tables, R-CONSTEXPR-TABLE, R-SECTION-ORDER, R-PAYLOAD-EXH, R-PARSE-ARM, R-LOOP-SCRATCH, R-REFERS-EXH (the updaters run on every encode, with identity maps on an unmodified module: each must write a looked-up index back to the operand it was looked up for).",
              "that the whole output validates for every module.",
              "abstract interpretation of match tables over a finite type domain; call-order check"),
-    "C02": P([ARGN, PARM, FRESH, EMITALL, RECD, FULLIT, TT_WE, TT_AUX, CONSTEXPR, ("fields", "types_cover", {}), ("fields", "name_pairing", {}), ("fields", "struct_copy_pairing", {}), ("fields", "custom_sections", {}), IMPORD, SCRATCH, TFLOW] + REIDX,
+    "C02": P([ARGN, PARM, ("fields", "namemap_copy_complete", {}), FRESH, EMITALL, RECD, FULLIT, TT_WE, TT_AUX, CONSTEXPR, ("fields", "types_cover", {}), ("fields", "name_pairing", {}), ("fields", "struct_copy_pairing", {}), ("fields", "custom_sections", {}), IMPORD, SCRATCH, TFLOW] + REIDX,
              "necessary conditions of content preservation: no type/const table changes a value, no Types field is dropped by the encoder, every name subsection and custom section is re-emitted from where it was stored, struct→struct copies pair like-named fields",
              "R-TYPE-TABLE, R-CONSTEXPR-TABLE, R-FIELDS-COVER(Types), R-NAME-PAIRING, R-COPY-PAIRING, R-CUSTOM-SECTIONS, R-IMPORT-ORDINAL, R-LOOP-SCRATCH, R-REFERS-EXH, R-TYPE-FIELD-FLOW, R-PARSE-ARM.",
              "equality of decoded forms on every input.",
@@ -229,9 +229,9 @@ PROPS = {
              "R-CUSTOM-SECTIONS.",
              "byte equality of the emitted sections over edit sequences.",
              "who-may-write + field pairing"),
-    "C29": P([IDSPACE, SCRATCH, FULLIT, EM((), names=True), ("misc", "name_dispatch", {}), ("fields", "name_pairing", {}), ("fields", "name_index_selects", {}), IMPORD],
+    "C29": P([IDSPACE, SCRATCH, FULLIT, EM((), names=True), ("misc", "name_dispatch", {}), ("fields", "name_pairing", {}), ("fields", "name_index_selects", {}), ("fields", "namemap_copy_complete", {}), IMPORD],
              "necessary: index-keyed name maps must not be emitted with pre-edit indices; naming dispatches on kind; each name kind re-emitted from where it was stored",
-             "R-EMIT-MAPPED(names), R-NAME-DISPATCH, R-NAME-PAIRING, R-NAME-INDEX, R-IMPORT-ORDINAL.",
+             "R-EMIT-MAPPED(names), R-NAME-DISPATCH, R-NAME-PAIRING, R-NAME-INDEX, R-NAMEMAP-COPY, R-IMPORT-ORDINAL.",
              "name equality over histories.",
              "sink provenance"),
     "C30": P([("misc", "delete_pairing", {}), WCOPY, EMITALL, RECALC, EM(("memory",)), MAPARGS, ("fields", "struct_copy_pairing", {}), CONSTEXPR, TT_BOTH, ("misc", "additions", {}), ("mutators", "swap_flows", {}), ("mutators", "who_may_call", {}), FRESH],
